@@ -12,3 +12,14 @@ for f in sorted(glob.glob(os.path.join(VERIF, "props", "C*.py"))):
         floors[s["instance"]] = s["sites_matched"]
 json.dump({"_comment": "sites matched per instance on the reviewed tree; written by tools/update_floors.py, read by engine/rules.py", "floors": floors}, open(os.path.join(VERIF, "floors.json"), "w"), indent=1, sort_keys=True)
 print(len(floors), "instances")
+
+# the reviewed tree's function list: later-added helper functions are inlined into their known callers (engine/mirlib.py)
+import sys
+sys.path.insert(0, os.path.join(VERIF, "engine"))
+from extract import extract  # noqa: E402
+fns = set()
+for cfg in ("R", "D"):
+    d, _ = extract("/repo", cfg)
+    fns |= {f["path"] for f in d["fns"]}
+json.dump({"_comment": "function def-paths of the reviewed tree (configs R and D); crate-local functions NOT in this list are treated as helpers extracted later and are inlined into their known callers before the rules run (engine/mirlib.py inline_unknown_helpers); written by tools/update_floors.py", "fns": sorted(fns)}, open(os.path.join(VERIF, "known_fns.json"), "w"), indent=0)
+print(len(fns), "known functions")
